@@ -9,7 +9,7 @@ from props.c20 import seg_table, FN_PARAMS
 ID = "C17"
 HEAP_SUMMARY = True      # end every program with the reference-level observation (BB.Model.Heap vs id() walk)
 LEAN_MODULE = "BB.Properties.C17"
-QUICK_N = 150
+QUICK_N = 300
 THOROUGH_N = 3000
 ERRCLASS = False
 RULE = ("base elements of 1-3 channels (2-4 sample-aligned segments: ramp, sine, one- and two-argument user functions), "
